@@ -91,12 +91,13 @@ func Indent(dst *bytes.Buffer, src []byte, prefix, indent string) error {
 func appendIndent(dst, src []byte, prefix, indent string) ([]byte, error) {
 	// In v2, only spaces and tabs are allowed, while v1 allowed any character.
 	dstLen := len(dst)
+	restoreIndent := func() {}
 	if len(strings.Trim(prefix, " \t"))+len(strings.Trim(indent, " \t")) > 0 {
 		// Use placeholder spaces of correct length, and replace afterwards.
 		invalidPrefix, invalidIndent := prefix, indent
 		prefix = strings.Repeat(" ", len(prefix))
 		indent = strings.Repeat(" ", len(indent))
-		defer func() {
+		restoreIndent = func() {
 			b := dst[dstLen:]
 			for i := bytes.IndexByte(b, '\n'); i >= 0; i = bytes.IndexByte(b, '\n') {
 				b = b[i+len("\n"):]
@@ -108,7 +109,7 @@ func appendIndent(dst, src []byte, prefix, indent string) ([]byte, error) {
 				}
 				b = b[n:]
 			}
-		}()
+		}
 	}
 
 	dst, err := jsontext.AppendFormat(dst, src,
@@ -122,6 +123,11 @@ func appendIndent(dst, src []byte, prefix, indent string) ([]byte, error) {
 	if err != nil {
 		return dst[:dstLen], transformSyntacticError(err)
 	}
+	// Replace the placeholders before the trailing whitespace of src is
+	// appended: that whitespace is not indentation, and treating it as
+	// such never terminates if it is longer than the prefix and
+	// the indent is empty.
+	restoreIndent()
 
 	// In v2, trailing whitespace is discarded, while v1 preserved it.
 	if n := len(src) - len(bytes.TrimRight(src, " \n\r\t")); n > 0 {
